@@ -20,7 +20,8 @@ MOD_T = os.path.join(SPEC, "LifecycleTrace.tla")
 KNAME = "new_section:name_bytes_after_name_uninitialised"
 KJA = "compiler:jump_annotations_survive_detach_reinit"
 KEH = "run_passes:inherited_error_handler_becomes_own"
-MASKABLE = (KNAME, KJA, KEH)
+KBASE = "reinit:base_address_of_relocate_to_base_survives"
+MASKABLE = (KNAME, KJA, KEH, KBASE)
 
 RANK = {"asm": 0, "builder": 1, "compiler": 2}
 KINDS = {"KindsABC": ["asm", "builder", "compiler"], "KindsCCA": ["compiler", "compiler", "asm"],
@@ -33,6 +34,8 @@ REPRO = {
             [["Init", 1], ["Attach", 1, 1], ["Gen", 1, 1]]),
     KJA: ({"arch": "x64", "static": 0, "logk": 1, "validate": 0, "perturb": 0, "kinds": ["compiler"]},
           [["Init", 1], ["Attach", 1, 1], ["Gen", 1, 5], ["Reinit", 1]]),
+    KBASE: ({"arch": "x64", "static": 0, "logk": 1, "validate": 0, "perturb": 0, "base": 0, "kinds": ["asm"]},
+            [["Init", 1], ["Attach", 1, 1], ["Gen", 1, 2], ["Seal", 1], ["Reinit", 1], ["Gen", 1, 2]]),
     KEH: ({"arch": "x64", "static": 0, "logk": 1, "validate": 0, "perturb": 0, "kinds": ["compiler"]},
           [["Init", 1], ["HEh", 1, 1], ["Attach", 1, 1], ["Gen", 1, 4], ["ResetH", 1, 0], ["Fail", 1]]),
 }
@@ -86,6 +89,17 @@ def ja_pattern(kinds, ops):
     return False
 
 
+def ja_possible(kinds, ops):
+    """after these calls, could the next (unlogged, aborted) call have been a Gen that hits the crash pattern of KJA"""
+    dirty = [False] * len(kinds)
+    for o in ops:
+        if o[0] == "Gen" and o[2] in (5, 6):
+            dirty[o[1] - 1] = True
+        elif o[0] in ("Destroy", "Create"):
+            dirty[o[1] - 1] = False
+    return any(dirty)
+
+
 def rec_to_op(r):
     e = r["e"]
     if e in ("Init", "Reinit", "Seal"):
@@ -108,13 +122,26 @@ def rec_to_op(r):
 def recs_to_script(recs):
     c = dict(recs[0]["cfg"])
     cfg = {"arch": c["arch"], "static": int(c["static"]), "logk": c["logk"], "validate": int(c["validate"]), "perturb": int(c["perturb"]),
-           "kinds": recs[0]["kinds"]}
+           "base": int(c.get("base", 1)), "kinds": recs[0]["kinds"]}
     ops = [rec_to_op(r) for r in recs[1:] if r.get("e") not in ("End", "ABORT", "Reset")]
     return {"cfg": cfg, "ops": ops}
 
 
-def classify(x):
-    """label a rejection (reporting only; the verdict is TLC's): (key, text)"""
+def classify(x, masked=()):
+    """label a rejection (reporting only; the verdict is TLC's): (key, text).  A rejection that TLC raised although the
+    mask of a listed finding was active cannot be that finding: it is never attributed to a masked key (only an abort
+    can, and only when the history contains the crash pattern of that finding)."""
+    key, text = classify0(x)
+    recs, idx = x["records"], x["index"]
+    aborted = idx >= len(recs) or recs[idx].get("e") == "ABORT"
+    if key in masked and not aborted:
+        bad = recs[idx]
+        return f"projection:{bad.get('e')}", f"{x['inv']} rejected the state after {rec_to_op(bad)} although the listed findings were excused: " \
+            f"H={json.dumps(bad.get('H'))[:300]} E={json.dumps(bad.get('E'))[:600]} fresh={json.dumps(recs[0].get('fe'))}; " + text[-600:]
+    return key, text
+
+
+def classify0(x):
     recs, idx, inv = x["records"], x["index"], x["inv"]
     if not recs or recs[0].get("e") != "Reset":
         why = recs[0].get("why") if recs else "empty trace"
@@ -126,9 +153,17 @@ def classify(x):
     where = f"cfg={json.dumps(cfg)} kinds={kinds} history={json.dumps(hist)}"
     if bad.get("e") == "ABORT" or idx >= len(recs):
         script = recs_to_script(recs)
-        if ja_pattern(kinds, script["ops"]) or any(o[0] == "Gen" and o[2] in (5, 6) for o in hist):
+        if ja_pattern(kinds, script["ops"]) or ja_possible(kinds, script["ops"]):
             return KJA, f"run aborted ({bad.get('why', 'truncated trace')}) after a Compiler created a jump annotation while holding stale ones; {where}"
         return "abort:" + re.sub(r"[^A-Za-z0-9]+", "_", str(bad.get("why", "truncated")))[:60], f"run aborted: {bad.get('why')}; {where}"
+    jit = not cfg.get("base", True)
+    sealed_before = any(o[0] == "Seal" for o in hist)
+    if jit and sealed_before and bad.get("e") != "ResetH":
+        fh = recs[0].get("fh", [[], []])
+        for hh in bad.get("H", []):
+            if hh.get("init") and len(hh.get("cnt", [])) > 8 and hh["cnt"][8] == 1 and fh[1][8] == 0 and (inv != "OutputIsFunctionOfCalls" or not bad.get("diff", "").startswith("sections line 1")):
+                return KBASE, f"after {rec_to_op(bad)} the holder has_base_address()=true (set by the earlier relocate_to_base) although a freshly initialised holder has none" \
+                    f"{' - output differs: ' + bad.get('diff', '')[:300] if bad.get('diff') else ''}; {where}"
     if inv == "OutputIsFunctionOfCalls":
         d, f = bad.get("dig", []), bad.get("fresh", [])
         if len(d) == 6 and d[1:] == f[1:] and d[0] != f[0]:
@@ -183,9 +218,11 @@ def export_histories(ctx, name, spec_args, simulate=None, cap=None):
     return [(KINDS[kinds], h) for h in hs]
 
 
-def axes(i, arch=None):
-    """configuration axes that must not matter, spread deterministically over the histories"""
-    return {"arch": arch or ("a64" if i % 3 == 2 else "x64"), "static": (i // 2) % 2, "logk": 1 + i % 2, "validate": (i // 3) % 2, "perturb": (i // 5) % 2}
+def axes(i, jit_base=True):
+    """configuration axes that must not matter, spread deterministically over the histories.  base = 0: JIT style
+    init(env) - the base address is only known to relocate_to_base(); base = 1: init(env, base)"""
+    return {"arch": "a64" if i % 3 == 2 else "x64", "static": (i // 2) % 2, "logk": 1 + i % 2, "validate": (i // 3) % 2, "perturb": (i // 5) % 2,
+            "base": 0 if jit_base and i % 4 == 1 else 1}
 
 
 def validate_shards(ctx, tcfg, traces, tag, nshards, timeout):
@@ -276,7 +313,7 @@ def run(ctx):
         ctx.log(f"known finding {KJA}: {n0 - len(hs)} histories that create a jump annotation in a Compiler holding stale ones are not replayed (they crash)")
     scripts_asan, scripts_plain = [], []
     for i, (kinds, h) in enumerate(hs):
-        a = axes(i)
+        a = axes(i, jit_base=KBASE not in known)
         scripts_asan.append({"cfg": dict(a, kinds=kinds), "ops": h})
         # twin under the complementary configuration (same shard => the ghost `expected` compares them)
         b = dict(a, static=1 - a["static"], logk=3 - a["logk"], validate=1 - a["validate"], perturb=1)
@@ -299,6 +336,9 @@ def run(ctx):
     renv = {"VERIF_SEED": ctx.seed}
     if KJA in known:
         renv["LC_AVOID_JA"] = "1"
+    if KBASE in known:
+        renv["LC_FIXED_BASE"] = "1"
+        ctx.log(f"known finding {KBASE}: the JIT-style configuration (init without base address) is only exercised by the finding's own history")
     nexec, nact = (3, 1000) if q else (30, 1000)
     tr1, tr2 = ctx.path("trace_random_asan.ndjson"), ctx.path("trace_random_plain.ndjson")
     vlib.record_trace(ctx, basan, "lifecycle", ["random", tr1, nexec, nact], tr1, timeout=2400, env=renv)
@@ -321,7 +361,7 @@ def run(ctx):
         nrec += n
         reported = set()
         for x in rej:
-            key, text = classify(x)
+            key, text = classify(x, known)
             if key in ctx.known:
                 ctx.known_finding(key, ctx.known[key])
                 continue
@@ -376,7 +416,7 @@ def replay(ctx, path):
         vlib.record_trace(ctx, b, "lifecycle", ["script", s, t], t, timeout=600)
         rej = vlib.validate_executions(ctx, MOD_T, tcfg, t, tag=f"replay_{fl}")
         for x in rej:
-            key, text = classify(x)
+            key, text = classify(x, known)
             if key in ctx.known:
                 ctx.known_finding(key, ctx.known[key])
             else:
